@@ -19,6 +19,9 @@ pub enum Ty {
     Data,    // NodeData<T>
     Payload, // T
     ListNid, // Vec<NodeId>
+    IterSt,  // Iter: the cursor `node`
+    DeSt,    // DoubleEndedIter: (head, tail)
+    TravSt,  // Traverse / ReverseTraverse: (root, next)
     Never,
     Unknown,
 }
@@ -44,6 +47,9 @@ impl Ty {
             Ty::Data => "ndata".into(),
             Ty::Payload => "N".into(),
             Ty::ListNid => "(list nid)".into(),
+            Ty::IterSt => "(option nid)".into(),
+            Ty::DeSt => "(option nid * option nid)%type".into(),
+            Ty::TravSt => "(nid * option edge)%type".into(),
             Ty::Never => "unit".into(),
             Ty::Unknown => "unsupported".into(),
         }
